@@ -252,9 +252,12 @@ func (k *checker) handle(c mon.Case, res mon.Result) {
 		k.okDeep[deepShapes[cd.Spec.A%len(deepShapes)].Name] = append(k.okDeep[deepShapes[cd.Spec.A%len(deepShapes)].Name], cd.Spec.B)
 	}
 	// samples: a few real cases per run, spread over the families, preferring ones that got far
-	if k.samples[cd.Family] < 1 && (reached == "result" || reached == "run" || cd.Family == "soup" || cd.Family == "bytes") && len(k.samples) < 5 {
-		k.samples[cd.Family]++
-		d.Sample(map[string]any{"family": cd.Family, "class": o.Class, "source": mon.Truncate(sourceOf(&cd), 400), "reached": reached, "outcome": o.Outcome, "error": o.ErrText})
+	if wanted := map[string]bool{"soup": true, "mut": true, "deep": true, "script": true, "script-special": true}; wanted[cd.Family] && k.samples[cd.Family] < 1 {
+		src := sourceOf(&cd)
+		if (cd.Family != "soup" || len(src) >= 25) && (cd.Family != "script" || strings.Contains(cd.InputClass, "cyclic")) && (cd.Family != "deep" || cd.Spec.B >= 1000) {
+			k.samples[cd.Family]++
+			d.Sample(map[string]any{"family": cd.Family, "class": o.Class, "source": mon.Truncate(src, 400), "reached": reached, "outcome": o.Outcome, "error": o.ErrText})
+		}
 	}
 	for _, p := range o.Panics {
 		sig := "panic:" + p.Stage + ":" + p.Site
